@@ -26,13 +26,14 @@ rm -f $wt/zz_demo_test.go
 cd /verif
 sed "s#=> /repo#=> $wt#" go.mod > /tmp/eval-$id.mod; cp go.sum /tmp/eval-$id.sum
 go build -modfile=/tmp/eval-$id.mod -tags verif -o bin/icesim-eval-$id ./cmd/icesim || { echo BUILD FAILED; exit 2; }
-needrace=0; for p in $props; do case $p in C09|C14) needrace=1;; esac; done
+needrace=0; for p in $props; do case $p in C09|C12|C14|C19) needrace=1;; esac; done
 if [ $needrace = 1 ]; then
   go build -race -modfile=/tmp/eval-$id.mod -tags verif -o bin/icesim-eval-$id-race ./cmd/icesim
   export ICESIM_RACE_BIN=/verif/bin/icesim-eval-$id-race
 fi
 mkdir -p seeded/$id
 export ICESIM_REPLAY_DIR=/verif/seeded/$id/replays-tmp; rm -rf $ICESIM_REPLAY_DIR
+export ICESIM_EVIDENCE_DIR=/tmp/eval-$id.evidence
 detected=""
 : > seeded/$id/check_output.txt
 for p in $props; do
@@ -57,4 +58,5 @@ print("$id", m["property"], "baseline_ok=%s"%m["confirmed"]["baseline_tests_pass
 PY
 rm -rf /verif/seeded/$id/replays-tmp
 git -C /repo worktree remove --force $wt
+rm -rf /tmp/eval-$id.evidence
 rm -f /tmp/eval-$id.mod /tmp/eval-$id.sum bin/icesim-eval-$id bin/icesim-eval-$id-race
